@@ -639,6 +639,12 @@ func (s *Store) Open() (retErr error) {
 		if !fsutil.PathExists(s.cleanSnapshotPath) {
 			return nil
 		}
+		if fsutil.PathExists(s.peersPath) {
+			// Node recovery replaces the log with a new snapshot, so the existing
+			// SQLite file must not be reused: it only reflects the previous snapshot.
+			s.logger.Printf("node recovery requested, not reusing existing database file")
+			return nil
+		}
 		fp := &FileFingerprint{}
 		if err := fp.ReadFromFile(s.cleanSnapshotPath); err != nil {
 			s.logger.Printf("failed to read clean snapshot (%s), performing full restore", err)
